@@ -166,8 +166,10 @@ func (v *list_[V]) InsertValues(slot uint, values Sequential[V]) {
 	// Copy the values into the new array.
 	var iterator = v.GetIterator()
 	var index int
+	var inserted bool
 	for index < int(size) {
-		if index == int(slot) {
+		if !inserted && index == int(slot) {
+			inserted = true
 			var iterator2 = values.GetIterator()
 			for iterator2.HasNext() {
 				index++
